@@ -10,6 +10,8 @@ def instances(tier):
     out = []
     for n in range(0, 10):
         out.append({'entry': 'h_b64_roundtrip', 'params': [n], 'bound': 'every byte array of length %d' % n})
+    for n, w in ((1, 1), (2, 1), (3, 1), (1, 2), (4, 1)) if q else ((1, 1), (2, 1), (3, 1), (1, 2), (2, 2), (4, 1), (5, 1), (4, 2)):
+        out.append({'entry': 'h_b64_ws', 'params': [n, w], 'bound': 'every %d-byte array, %d whitespace character(s) (space, LF, TAB, CR) inserted at every position of its Base64 text' % (n, w)})
     for n in range(0, 5 if q else 6):
         out.append({'entry': 'h_b64_decode_any', 'params': [n], 'bound': 'every NUL-free text of length %d' % n})
     for n in range(0, 4 if q else 5):
